@@ -83,5 +83,17 @@ func vh_C19_svid(a []int) {
 			k.KeyVal.Private == "private-of-"+wantPEM && k.KeyVal.Public == "public-of-"+wantPEM)
 		vAssert("C19.svid-key-carries-the-leaf-certificate", k.KeyVal.Certificate == "PEM[CERTIFICATE|"+raw+"]")
 	}
+	// second use: another SVID converted afterwards gets its own key and certificate (nothing of the
+	// first conversion survives)
+	vhLoadedFrom = nil
+	tag2 := []string{"key-C", "key-D"}[vChoice("key2", 2)]
+	s2 := SVIDDetails{PrivateKey: &vhSigner{tag: tag2}, Certificate: &x509.Certificate{Raw: []byte("LEAF-3")}}
+	k2, err2 := s2.InTotoKey()
+	vObserve("svid2", err2 == nil, k2.KeyID)
+	if err2 == nil {
+		want2 := "PEM[PRIVATE KEY|DER(" + tag2 + ")]"
+		vAssert("C19.second-svid-gets-its-own-key-and-certificate", k2.KeyID == "id-of-"+want2 && k2.KeyVal.Private == "private-of-"+want2 &&
+			k2.KeyVal.Certificate == "PEM[CERTIFICATE|LEAF-3]" && len(vhLoadedFrom) == 1 && vhLoadedFrom[0] == want2)
+	}
 	vReach("C19.end")
 }
